@@ -29,7 +29,7 @@ class AnEval(EvalContract):
     descriptor; it re-exports the selected variable's binding under its own id; it always filters by truth."""
     qual = 'symbolic:An._evaluate__'
     cls = 'An'
-    props = ('C01', 'C02', 'C15')
+    props = ('C01', 'C02', 'C15', 'C07')
     uses_position = True
     var_optional = True
 
@@ -148,7 +148,7 @@ class EntityEval(DescriptorMixin, EvalContract):
     """symbolic.Entity._evaluate__ with one selected variable (K=1) – called by An with a dict (never None)."""
     qual = 'symbolic:Entity._evaluate__'
     cls = 'Entity'
-    props = ('C01', 'C15', 'C16', 'C19')
+    props = ('C01', 'C15', 'C16', 'C19', 'C07')
     K = 1
     source_cases = ('empty', 'nonempty')
     trusted = ("requires `sources` is a dict (An._evaluate__, the only caller, passes `sources or {}`)",
@@ -170,7 +170,7 @@ class QODEvaluate(DescriptorMixin, EvalContract):
     unbound selected variable is completed over its domain (Cartesian product), a bound one keeps its binding."""
     qual = 'symbolic:QueryObjectDescriptor._evaluate_'
     cls = 'QueryObjectDescriptor'
-    props = ('C01', 'C02', 'C15', 'C16', 'C19')
+    props = ('C01', 'C02', 'C15', 'C16', 'C19', 'C07')
     K = 1
     inline_gens = ('_bind_selected_variables_',)
     trusted = ("no rule conclusions attached (query mode); rule mode is covered by contracts/rules.py",
@@ -289,7 +289,7 @@ class QODEvaluate(DescriptorMixin, EvalContract):
 
 class QODEvaluateLeaf(QODEvaluate):
     """selected variables are plain variables (leaves): the case of C01 / C02"""
-    props = ('C01', 'C02')
+    props = ('C01', 'C02', 'C07')
     K = 1
     leaf_selected = True
 
